@@ -24,7 +24,7 @@ func init() {
 			b, err := replication.DecodeExchangeBatch(data)
 			return b, err == nil
 		},
-		payload: func(v any, hasV bool, data []byte, res any, resOK bool) string {
+		payload: func(v any, hasV bool, data []byte, res any, resOK, same bool) string {
 			var bits []bool
 			vt := vh.None()
 			if hasV {
@@ -35,14 +35,14 @@ func init() {
 				bits = replication.VerifExchangeBatchValidBits(data)
 			}
 			return vh.App("PReplBatch", boolList(bits), vt,
-				resTerm(resOK, func() string { return coqBatch(res.(replication.ExchangeBatch)) }))
+				resTerm(resOK && !same, func() string { return coqBatch(res.(replication.ExchangeBatch)) }))
 		},
 		rawHint: func(r *rand.Rand) []byte {
 			return []byte{byte(replication.ExchangeVersion), byte(r.IntN(3)), byte(r.IntN(4)), byte(1 + r.IntN(3)), byte(r.IntN(5))}
 		},
 	})
 	register(&codec{
-		name: "repl_result", weight: 18,
+		name: "repl_result", weight: 12,
 		gen: func(r *rand.Rand) (any, string) { return genBatchResult(r) },
 		enc: func(v any) ([]byte, bool) {
 			b, err := replication.EncodeExchangeBatchResult(v.(replication.ExchangeBatchResult))
@@ -52,13 +52,13 @@ func init() {
 			b, err := replication.DecodeExchangeBatchResult(data)
 			return b, err == nil
 		},
-		payload: func(v any, hasV bool, data []byte, res any, resOK bool) string {
+		payload: func(v any, hasV bool, data []byte, res any, resOK, same bool) string {
 			vt := vh.None()
 			if hasV {
 				vt = vh.Some(coqBatchResult(v.(replication.ExchangeBatchResult)))
 			}
 			return vh.App("PReplResult", vt,
-				resTerm(resOK, func() string { return coqBatchResult(res.(replication.ExchangeBatchResult)) }))
+				resTerm(resOK && !same, func() string { return coqBatchResult(res.(replication.ExchangeBatchResult)) }))
 		},
 		rawHint: func(r *rand.Rand) []byte {
 			return []byte{byte(replication.ExchangeVersion), byte(r.IntN(4)), byte(1 + r.IntN(3)), byte(r.IntN(9))}
@@ -432,7 +432,7 @@ func sliceLen(r *rand.Rand) int { // -1 = nil
 func genBatchResult(r *rand.Rand) (replication.ExchangeBatchResult, string) {
 	b := replication.ExchangeBatchResult{Version: replication.ExchangeVersion}
 	class := "small"
-	n := 1 + r.IntN(3)
+	n := vh.Pick(r, 1, 1, 1, 1, 1, 2, 2, 3)
 	switch r.IntN(120) {
 	case 0: // ~220 KB on the wire, ~1 MB of case text: thorough tier only
 		if genTier == "thorough" {
@@ -450,10 +450,10 @@ func genBatchResult(r *rand.Rand) (replication.ExchangeBatchResult, string) {
 			key, id := genIdent(r)
 			l, f := genNodes(r)
 			it.Replicate = replication.ReplicateResult{Status: replication.ReplicateStatus(r.IntN(9)), LastOffset: vh.U64Edge(r), NeedFrom: vh.U64Edge(r)}
-			if vh.Chance(r, 0.6) {
+			if vh.Chance(r, 0.5) {
 				it.Replicate.Proof = replication.ReplicateProof{ChannelKey: key, ChannelID: id, Leader: l, Follower: f, Manifest: genManifestAny(r)}
 			}
-			if vh.Chance(r, 0.6) {
+			if vh.Chance(r, 0.45) {
 				it.Probe.Proof = replication.ProbeProof{ChannelKey: key, ChannelID: id, Leader: l, Follower: f, Indexes: genIndexes(r, 256)}
 				it.Probe.State = genStateAny(r)
 				if k := sliceLen(r); k >= 0 {
@@ -463,7 +463,7 @@ func genBatchResult(r *rand.Rand) (replication.ExchangeBatchResult, string) {
 					}
 				}
 			}
-			if vh.Chance(r, 0.6) {
+			if vh.Chance(r, 0.45) {
 				it.Fetch.Proof = replication.FetchProof{ChannelKey: key, ChannelID: id, Leader: l, Follower: f, Expected: genStateAny(r),
 					From: vh.U64Edge(r), Through: vh.U64Edge(r), Previous: genEntryAny(r), MaxBytes: r.IntN(1 << uint(r.IntN(62)))}
 				it.Fetch.State = genStateAny(r)
